@@ -231,6 +231,14 @@ class BrokerMonitor(Monitor):
                 return
             arn = d.get("executionArn")
             if d.get("status") == "RUNNING":
+                cur = getattr(self, "cur_uid", None)
+                if cur in getattr(self, "anon", ()):
+                    # the start event being handled named neither execution nor message: this is the execution the
+                    # engine made of it, and that (still unacknowledged) delivery carries it
+                    self.anon.discard(cur)
+                    self.exec_of_uid[cur] = arn
+                    self.branch_of_uid[cur] = False
+                    self.msgs[arn] = self.msgs.get(arn, 0) + 1
                 if arn not in self.terminal_step:
                     self.live[arn] = True
             else:
@@ -241,6 +249,11 @@ class BrokerMonitor(Monitor):
             try:
                 ev = json.loads(body.decode("utf8") if isinstance(body, bytes) else body)
                 ctx = ev["context"]
+                if "Execution" not in ctx and queues:
+                    if not hasattr(self, "anon"):
+                        self.anon = set()
+                    self.anon.add(uid)
+                    return
                 arn = ctx["Execution"].get("Id")
                 if arn is None:
                     # a start event published by a client the "low-level" way: the engine derives the execution ARN
@@ -270,6 +283,7 @@ class BrokerMonitor(Monitor):
     def on_op(self, rec):
         step, t, name, node, kw = rec
         if name == "deliver" and node is not None:
+            self.cur_uid = kw["uid"]
             self.pending[(kw["ch"], kw["tag"])] = (kw["queue"], kw["uid"], node)
             arn = self.exec_of_uid.get(kw["uid"]) or self.arn_of_cid.get(kw.get("cid"))
             self.sim.ctx_tag = arn
